@@ -376,6 +376,10 @@ func overlappingSubscribers(sn *node, publishID uintptr, p *publishes) {
 		id := key.(uintptr)
 		sub := value.(*topicSubscriber)
 
+		// a re-subscription rewrites sub.p under the write lock: what goes into one copy of the
+		// message is read under the read lock, or granted QoS, options and identifier of two
+		// different subscriptions end up together
+		sub.RLock()
 		if s, ok := (*p)[id]; ok {
 			if sub.p.ID > 0 {
 				s[0].ids = append(s[0].ids, sub.p.ID)
@@ -385,14 +389,13 @@ func overlappingSubscribers(sn *node, publishID uintptr, p *publishes) {
 				s[0].qos = sub.p.Granted
 			}
 		} else {
-			sub.RLock()
 			if !sub.p.Ops.NL() || id != publishID {
 				if pe := sub.acquire(); pe != nil {
 					(*p)[id] = append((*p)[id], pe)
 				}
 			}
-			sub.RUnlock()
 		}
+		sub.RUnlock()
 
 		return true
 	})
@@ -403,6 +406,8 @@ func nonOverlappingSubscribers(sn *node, publishID uintptr, p *publishes) {
 		id := key.(uintptr)
 		sub := value.(*topicSubscriber)
 
+		// see overlappingSubscribers
+		sub.RLock()
 		if !sub.p.Ops.NL() || id != publishID {
 			if pe := sub.acquire(); pe != nil {
 				if _, ok := (*p)[id]; ok { // nolint: gosimple
@@ -412,6 +417,7 @@ func nonOverlappingSubscribers(sn *node, publishID uintptr, p *publishes) {
 				}
 			}
 		}
+		sub.RUnlock()
 
 		return true
 	})
